@@ -57,15 +57,25 @@ def SumNonEmpty (QC : QCtx D) (c : Chain) : Prop :=
   ∀ t, chainTy none c.steps = some t → t.isFloating = true →
     ∀ cty l ws, QC.ev.find c.bank = some (cty, .vec l) → elemsSem QC c.steps l = .ok ws → ws ≠ []
 
+def litOf : CExpr → Option (Val D)
+  | .int k => some (.int k)
+  | .bool b => some (.bool b)
+  | _ => none
+
+/-- the value a declaration `ty x (lit);` leaves in `x`: the literal converted to the declared type -/
+def initValOf (N : Num D) (ty : String) (e : CExpr) : Val D :=
+  match litOf (D := D) e with
+  | some v => (match castTo N ty v with
+    | .ok v' => v'
+    | .error _ => v)
+  | none => .int 0
+
 /-- the value a declaration `ty x (0);` leaves in `x` -/
-def initVal (N : Num D) (ty : String) : Val D :=
-  match castTo N ty (.int 0) with
-  | .ok v => v
-  | .error _ => .int 0
+def initVal (N : Num D) (ty : String) : Val D := initValOf N ty (.int 0)
 
 def DeclOK (N : Num D) (σ : Env D) : Stmt → Prop
   | .decl _ x none => (σ x).isSome = true
-  | .decl ty x (some _) => σ x = some (.val (initVal N ty))
+  | .decl ty x (some e) => σ x = some (.val (initValOf N ty e))
   | _ => False
 
 def DeclsDone (N : Num D) (decls : List Stmt) (σ : Env D) : Prop := ∀ d ∈ decls, DeclOK N σ d
